@@ -5,10 +5,10 @@
 //	goroutine through histories over {link, unlink, write, answer, closeR, deliverDrop, closeW};
 //	every step's return value, the packets pushed into the writer's pump during the step
 //	(observed synchronously by an inbound hook) and the packets handed to readers are compared
-//	with Uniflow.Writer.step on the same history (driver `c01`); histories outside the
-//	re-link-with-pending class are also compared with the id-keyed specification (`c01s`).
-//	The goroutines Reader.Close spawns are parked at the verif yield hook at the top of
-//	(*Writer).receive and released one per `drop r` step.
+//	with Uniflow.Writer.step on the same history (driver `c01`) and with the id-keyed
+//	specification (`c01s`).  The goroutines Reader.Close spawns are parked at the verif
+//	yield hook at the top of (*Writer).receive and released one per `drop r` step, the
+//	one with the oldest link generation first.
 //
 // (b) property oracle: a reference bookkeeping over the harness's own write log (write ids,
 //
@@ -20,6 +20,7 @@ package c01
 import (
 	"errors"
 	"fmt"
+	"sort"
 	"strconv"
 	"strings"
 	"sync"
@@ -160,6 +161,7 @@ func canon(p *packet.Packet) string {
 
 type parkedG struct {
 	rid     int
+	link    uint64 // generation of the link the dropped request was written over
 	release chan struct{}
 	done    chan string
 }
@@ -190,12 +192,12 @@ var hookOnce sync.Once
 
 const wait = 3 * time.Second
 
-func yieldHook(w *packet.Writer, r *packet.Reader, _ *packet.Packet) func() {
+func yieldHook(w *packet.Writer, r *packet.Reader, _ *packet.Packet, link uint64) func() {
 	s := cur.Load()
 	if s == nil || s.w != w || s.mainBusy.Load() || s.draining.Load() {
 		return nil
 	}
-	g := &parkedG{rid: s.ridOf[r], release: make(chan struct{}), done: make(chan string, 1)}
+	g := &parkedG{rid: s.ridOf[r], link: link, release: make(chan struct{}), done: make(chan string, 1)}
 	s.parkCh <- g
 	<-g.release
 	return func() {
@@ -208,7 +210,7 @@ func yieldHook(w *packet.Writer, r *packet.Reader, _ *packet.Packet) func() {
 }
 
 func newSim(n int) *sim {
-	hookOnce.Do(func() { packet.VerifReceive = yieldHook })
+	hookOnce.Do(func() { packet.VerifReceiveLink = yieldHook })
 	s := &sim{w: packet.NewWriter(), ridOf: map[*packet.Reader]int{}, parkCh: make(chan *parkedG, 4096), parked: make([][]*parkedG, n)}
 	s.w.AddInboundHook(packet.HookFunc(func(p *packet.Packet) {
 		s.mu.Lock()
@@ -302,7 +304,12 @@ func (s *sim) exec(o op) (out string, emitted []string, panicked bool) {
 			for i := 0; i < n; i++ {
 				select {
 				case g := <-s.parkCh:
-					s.parked[g.rid] = append(s.parked[g.rid], g)
+					// keep the held-back notices of a reader in the order of its requests: the
+					// generations are non-decreasing along the reader's queue and notices of
+					// one generation are identical, so sorting by generation restores it
+					ps := append(s.parked[g.rid], g)
+					sort.SliceStable(ps, func(i, j int) bool { return ps[i].link < ps[j].link })
+					s.parked[g.rid] = ps
 				case <-time.After(wait):
 					s.timedOut = true
 					s.fail("closer %d: only %d of %d spawned goroutines reached (*Writer).receive", o.r, i, n)
@@ -628,9 +635,6 @@ func runHistory(n int, next func(x *ref, s *sim, i int) (op, bool)) (res result)
 		}
 		wantRet, want := x.apply(o)
 		cls := "response"
-		if x.relink {
-			cls = "relink-with-pending"
-		}
 		ret := strings.Fields(out)[0]
 		if wantRet != "" && ret != wantRet {
 			oracleFail(cls, fmt.Sprintf("step %d (%s) reported %s; by the write log it must report %s", i+1, o.line(), ret, wantRet))
@@ -779,7 +783,7 @@ func Run(c *lib.Ctx) {
 		"payloads are opaque to Join (only error / None / other is inspected): answers are int64 ids, errors are identified by their message, errors.Join by the newline-separated messages",
 		"responses are observed where they are pushed into the writer's pump (inbound hook) and re-read from Receive() after every step; the dropped responses pushed by Writer.Close itself can be discarded by the pump (known finding close-discards-buffered, DESIGN.md §7 row 7; the closed channel stands for them, see C03): those that do not arrive are counted and attributed to the finding, those that do are checked",
 	}
-	c.Trusted = []string{"pkg/packet verif hook VerifReceive (yield at the top of (*Writer).receive)", "Go scheduler/channels/mutexes (modelled as atomic steps)"}
+	c.Trusted = []string{"pkg/packet verif hook VerifReceiveLink (yield at the top of (*Writer).receive, told the link generation)", "Go scheduler/channels/mutexes (modelled as atomic steps)"}
 
 	rng := lib.NewRNG(c.Seed)
 	model := &lib.Script{}
@@ -798,9 +802,9 @@ func Run(c *lib.Ctx) {
 			c.Hit("op-" + strings.Fields(l)[0])
 		}
 		if res.relink {
-			c.Hit("class-relink-with-pending")
+			c.Hit("history-relinks-with-pending")
 		} else {
-			c.Hit("class-no-relink")
+			c.Hit("history-no-relink-with-pending")
 		}
 		c.Hit(fmt.Sprintf("responses-%s", bucket(res.responses)))
 		for _, im := range res.impls {
@@ -821,11 +825,9 @@ func Run(c *lib.Ctx) {
 		for i, l := range res.lines {
 			model.Op(l, res.impls[i])
 		}
-		if !res.relink {
-			spec.Begin()
-			for i, l := range res.lines {
-				spec.Op(l, res.impls[i])
-			}
+		spec.Begin()
+		for i, l := range res.lines {
+			spec.Op(l, res.impls[i])
 		}
 		if res.fail != nil {
 			f := *res.fail
@@ -862,7 +864,7 @@ func Run(c *lib.Ctx) {
 	n := c.Scale(2500, 20000)
 	maxLen := c.Scale(12, 40)
 	for i := 0; i < n; i++ {
-		g := &gen{r: rng.Fork(), n: rng.Range(1, maxReaders), length: rng.Range(2, maxLen), avoid: rng.Chance(7, 10),
+		g := &gen{r: rng.Fork(), n: rng.Range(1, maxReaders), length: rng.Range(2, maxLen), avoid: rng.Chance(1, 2),
 			settle: rng.Chance(1, 2), lagging: rng.Intn(4)}
 		record(runHistory(g.n, g.next), fmt.Sprintf("random history %d", i))
 	}
@@ -912,8 +914,8 @@ func Run(c *lib.Ctx) {
 		c.Violation("model driver (specification) failed: "+err.Error(), "", false)
 		return
 	}
-	c.Extra["spec_cases"] = fmt.Sprintf("%d histories without re-link-with-pending also compared with the id-keyed specification: %d differ", spec.Cases(), len(ms2))
-	c.Conclude("Uniflow.Writer.step ~ packet.Writer/Reader (per-step return value, responses, deliveries); Uniflow.WriterSpec.step outside the re-link class", append(ms, ms2...), fails)
+	c.Extra["spec_cases"] = fmt.Sprintf("all %d histories also compared with the id-keyed specification: %d differ", spec.Cases(), len(ms2))
+	c.Conclude("Uniflow.Writer.step ~ packet.Writer/Reader (per-step return value, responses, deliveries); Uniflow.WriterSpec.step (all histories)", append(ms, ms2...), fails)
 }
 
 func bucket(n int) string {
